@@ -122,7 +122,7 @@ static bool observe(const BoxI& x, Shadow& S, const std::string& where) {
   BP c(x.clone()); S.n = c->dim(); S.empty = false;
   bool e = c->is_empty();
   std::string odd; c->intervals(S.iv, odd);
-  if (!odd.empty()) { violation("C03.unobservable." + INST + "." + where, odd + "; status " + status_word(x)); return false; }
+  if (!odd.empty()) { std::ostringstream dmp; x.ascii_dump(dmp); violation("C03.unobservable." + INST + "." + where + ":" + odd.substr(0, odd.find(':')), odd + "; ascii_dump: " + dmp.str()); return false; }
   bool any = false;
   for (int k = 0; k < S.n; ++k) {
     bool flag = S.iv[k].empty; Itv t = S.iv[k]; t.empty = false; bool cross = itv_empty(t);
@@ -146,6 +146,7 @@ static bool observe(const BoxI& x, Shadow& S, const std::string& where) {
   return true;
 }
 
+static mpz_class pow2(int k);
 // ---------- targets: finite unions of exists-projected systems ----------
 struct Target { int n; std::vector<ESys> pieces; Target() : n(0) {} };
 static Target tgt(const ESys& T) { Target t; t.n = T.n; t.pieces.push_back(T); return t; }
@@ -180,12 +181,22 @@ static bool check_sound(const std::string& key, const Target& T, const Shadow& R
       if (ref::feasible(nv, s, &w)) {
         if (!ref::sat(P.s, w) || member(R.iv[k], w[k])) { violation("harness.bug.sound_witness", key); return false; }
         std::ostringstream o; o << show_piece_wit(P, w) << " of the exact result is outside the result's interval " << show(R.iv[k]) << " for dimension " << k << "; result " << show(R) << "; " << ctx;
-        // triage: integral boundary that is exactly the inward rounding of the exact (non-integral) bound
+        // triage: some violated boundary of the result is exactly the inward rounding of the exact bound
+        // (integral boundary types), resp. is within one unit in the last place inside it (floating point)
         std::string k2 = key;
-        if (TI.integer) {
-          bool bounded = true, first = true; Q sup;
-          for (size_t p2 = 0; p2 < T.pieces.size() && bounded; ++p2) { const ESys& P2 = T.pieces[p2]; int nv2 = P2.n + P2.aux; Vec d(nv2); d[k] = side ? 1 : -1; ref::SupResult sr = ref::supremum(nv2, P2.s, d); if (!sr.nonempty) continue; if (!sr.bounded) { bounded = false; break; } if (first || sr.sup > sup) { sup = sr.sup; first = false; } }
-          if (bounded && !first) { Q ex = side ? sup : Q(-sup); if (ex.get_den() != 1) { mpz_class fl; mpz_fdiv_q(fl.get_mpz_t(), ex.get_num_mpz_t(), ex.get_den_mpz_t()); Q inward = side ? Q(fl) : Q(fl + 1); if (b.v == inward) k2 += (key.find(':') == std::string::npos ? ":" : "+") + std::string("bound-rounded-inward"); } }
+        if (TI.integer || TI.fdigits) {
+          bool tagged = false;
+          for (int kk = 0; kk < R.n && !tagged; ++kk) for (int sd = 0; sd < 2 && !tagged; ++sd) {
+            const Bnd& bb = sd ? R.iv[kk].hi : R.iv[kk].lo; if (bb.inf) continue;
+            bool bounded = true, first = true; Q sup;
+            for (size_t p2 = 0; p2 < T.pieces.size() && bounded; ++p2) { const ESys& P2 = T.pieces[p2]; int nv2 = P2.n + P2.aux; Vec d(nv2); d[kk] = sd ? 1 : -1; ref::SupResult sr = ref::supremum(nv2, P2.s, d); if (!sr.nonempty) continue; if (!sr.bounded) { bounded = false; break; } if (first || sr.sup > sup) { sup = sr.sup; first = false; } }
+            if (!bounded || first) continue;
+            Q ex = sd ? sup : Q(-sup);
+            bool inside = sd ? (bb.v < ex) : (bb.v > ex); if (!inside) continue;
+            if (TI.integer) { if (ex.get_den() != 1) { mpz_class fl; mpz_fdiv_q(fl.get_mpz_t(), ex.get_num_mpz_t(), ex.get_den_mpz_t()); Q inward = sd ? Q(fl) : Q(fl + 1); if (bb.v == inward) tagged = true; } }
+            else { Q gap = abs(ex - bb.v), ulp = abs(ex) / Q(pow2(TI.fdigits - 1)); if (gap <= ulp) tagged = true; }
+          }
+          if (tagged) k2 += (key.find(':') == std::string::npos ? ":" : "+") + std::string(TI.integer ? "bound-rounded-inward" : "bound-rounded-inward-1ulp");
         }
         violation(k2, o.str()); return false;
       }
@@ -513,7 +524,8 @@ static bool mutate(StepCtx& c) {
     t << "." << nm << "("; for (size_t i = 0; i < cv.size(); ++i) t << (i ? ", " : "") << str(cv[i]); if (many) t << "; max_iterations=" << mi; t << ")"; tr(t.str()); note_op(c, nm, "", false);
     if (many) A.propagate_constraints(cs, mi); else A.propagate_constraint(cv[0]);
     Sys T = sA; for (size_t i = 0; i < cv.size(); ++i) T.push_back(ref::conv(cv[i], n));
-    finish(c, nm, "", tgt(n, T), 0, false);
+    std::string pcls; for (size_t i = 0; i < cv.size(); ++i) if (cv[i].is_equality() && nvars_of(Linear_Expression(cv[i].expression()), n) == 0 && cv[i].inhomogeneous_term() == 0) pcls = "trivial-equality-0=0";
+    finish(c, nm, pcls, tgt(n, T), 0, false);
     return true;
   }
   if (k < 33) { tr(c.pre + ".intersection_assign(" + bref + ")"); note_op(c, "intersection_assign", "", true);
@@ -689,10 +701,14 @@ static void run_queries(StepCtx& c) {
     Con hyp = rc; hyp.rel = ref::EQ;
     bool saturates = sys_included(n, sA, Sys(1, hyp));
     std::string d = str(cc) + " -> " + str(r) + "; " + ctx;
-    if (!check_bool("relation_with_c.is_disjoint", r.implies(Poly_Con_Relation::is_disjoint()), !nonempty_meet, d)) return;
-    if (!check_bool("relation_with_c.is_included", r.implies(Poly_Con_Relation::is_included()), included, d)) return;
-    if (!check_bool("relation_with_c.saturates", r.implies(Poly_Con_Relation::saturates()), saturates, d)) return;
-    if (!check_bool("relation_with_c.strictly_intersects", r.implies(Poly_Con_Relation::strictly_intersects()), nonempty_meet && !included, d)) return;
+    std::string rcls;
+    { int nvz = 0, kv = -1; for (int i = 0; i < n && i < (int) cc.space_dimension(); ++i) if (cc.coefficient(Variable(i)) != 0) { ++nvz; kv = i; }
+      if (nvz == 0 && cc.is_equality() && n > 0) rcls = ":trivial-equality";
+      else if (nvz == 1 && !cc.is_equality() && ne && cc.coefficient(Variable(kv)) < 0 && SA.iv[kv].hi.inf && !SA.iv[kv].lo.inf) rcls = ":upper-bound-vs-interval-unbounded-above"; }
+    if (!check_bool("relation_with_c.is_disjoint" + rcls, r.implies(Poly_Con_Relation::is_disjoint()), !nonempty_meet, d)) return;
+    if (!check_bool("relation_with_c.is_included" + rcls, r.implies(Poly_Con_Relation::is_included()), included, d)) return;
+    if (!check_bool("relation_with_c.saturates" + rcls, r.implies(Poly_Con_Relation::saturates()), saturates, d)) return;
+    if (!check_bool("relation_with_c.strictly_intersects" + rcls, r.implies(Poly_Con_Relation::strictly_intersects()), nonempty_meet && !included, d)) return;
     break; }
   case 5: {
     Linear_Expression e = rexpr(n); int m = rnd(0, 4); Congruence cg = (e %= 0) / m;
@@ -1190,8 +1206,10 @@ static void integer_ops(StepCtx& c, BP& slot) {
         else { Q e = a.hi.v - a.lo.v; cls += e < Q(M) - 1 ? "+extent<period" : e == Q(M) ? "+extent=period" : e < Q(M) ? "+extent=period-1" : "+extent>period";
           mpz_class ql = zfloor((a.lo.v - Q(lo)) / Q(M)), qh = zfloor((a.hi.v - Q(lo)) / Q(M)); cls += ql == qh ? "+1quadrant" : qh - ql == 1 ? "+2quadrants" : "+3+quadrants"; }
         if (g) cls += "+guard";
+        if (ov == 1 && !TI.open && wr[kf] && p[kf] == Q(hi + 1)) cls += "+closed-ITV+point-at-quadrant-sup";
+        if (TI.bits && wr[kf]) { mpz_class tmax = TI.sgn ? mpz_class(pow2(TI.bits - 1) - 1) : mpz_class(pow2(TI.bits) - 1), tmin = TI.sgn ? mpz_class(-pow2(TI.bits - 1)) : mpz_class(0); if (hi + 1 > tmax || lo < tmin) cls += "+quadrant-unrepresentable-in-T"; }
       }
-      (void) p; return cls;
+      return cls;
     };
     unsigned long pts = enumerate_points(SA, wr, (lo + hi) / 2, [&](const Vec& p) {
       std::vector<Vec> must;
@@ -1226,7 +1244,9 @@ static void integer_ops(StepCtx& c, BP& slot) {
     if (all) Rb->drop_some_non_integer_points(cc); else Rb->drop_some_non_integer_points(vs, cc);
     Shadow R; if (!observe(*Rb, R, "drop_some_non_integer_points")) return;
     std::string ctx = "argument " + show(SA);
-    if (!check_sound("C17.box." + INST + ".drop_some_non_integer_points.not_subset", tgt(n, to_sys(R)), SA, "result " + show(R) + " must be contained in the " + ctx)) return;
+    std::string dcls;
+    if (TI.fdigits && !SA.empty) for (int k = 0; k < n; ++k) if (des[k]) { const Itv& a = SA.iv[k]; Q lim(pow2(TI.fdigits)); if ((!a.lo.inf && a.lo.open && abs(a.lo.v) >= lim) || (!a.hi.inf && a.hi.open && abs(a.hi.v) >= lim)) dcls = ":open-bound-beyond-mantissa"; }
+    if (!check_sound("C17.box." + INST + ".drop_some_non_integer_points.not_subset" + dcls, tgt(n, to_sys(R)), SA, "result " + show(R) + " must be contained in the " + ctx)) return;
     checked();
     unsigned long pts = enumerate_points(SA, des, mpz_class(0), [&](const Vec& p) {
       if (!member(R, p)) { int kf = 0; for (int k = 0; k < n; ++k) if (R.empty || !member(R.iv[k], p[k])) { kf = k; break; }
@@ -1289,6 +1309,7 @@ static void run_case(uint64_t) {
     std::ostringstream o; o << INST << " n=" << n << " init:";
     for (int i = 0; i < NP; ++i) { std::string txt; pool[i].reset(random_box(*proto, n, txt)); o << " #" << i << "=" << txt; }
     tr(o.str());
+    for (int i = 0; i < NP; ++i) { Shadow S0; if (!observe(*pool[i], S0, hx::trace().find("#" + std::to_string(i) + "=gens") != std::string::npos ? "Box(Generator_System)" : "init")) return; }
   }
   int steps = rnd(4, 12);
   for (int stp = 0; stp < steps && !hx::st().case_tainted; ++stp) {
@@ -1337,9 +1358,12 @@ static void run_case(uint64_t) {
       violation("C03.hang." + INST + "." + opn, "logical-time budget (weight 2e8) exceeded");
       return;
     } catch (const std::exception& e) {
-      std::string t = hx::trace(); size_t p = t.rfind(" | #"); std::string lastop = p == std::string::npos ? t : t.substr(p + 3); size_t a = lastop.find_first_of(".="), b = lastop.find_first_of("({", a == std::string::npos ? 0 : a);
-      std::string opn = (a != std::string::npos && b != std::string::npos && b > a) ? lastop.substr(a + 1, b - a - 1) : last;
+      std::string t = hx::trace(); size_t p = t.rfind(" | #"); std::string lastop = p == std::string::npos ? t : t.substr(p + 3);
+      std::string opn; size_t eqp = lastop.find(" = ");
+      if (eqp != std::string::npos && eqp < 6) { size_t b = lastop.find_first_of("{,", eqp); opn = lastop.substr(eqp + 3, b == std::string::npos ? std::string::npos : b - eqp - 3); if (lastop.find("POLYNOMIAL") != std::string::npos) opn += "+POLYNOMIAL"; else if (lastop.find("SIMPLEX") != std::string::npos) opn += "+SIMPLEX"; }
+      else { size_t a = lastop.find('.'), b = lastop.find('(', a == std::string::npos ? 0 : a); opn = (a != std::string::npos && b != std::string::npos && b > a) ? lastop.substr(a + 1, b - a - 1) : last; }
       while (!opn.empty() && opn[0] == ' ') opn.erase(0, 1);
+      if (opn.compare(0, 4, "tmp.") == 0) opn = opn.substr(4);
       std::string prop = (opn.find("wrap_assign") != std::string::npos || opn.find("drop_some") != std::string::npos || opn.find("contains_integer") != std::string::npos) ? "C17.box." + INST + "." + opn + ".unexpected_exception:" : "C03.unexpected_exception." + INST + "." + opn + ":";
       violation(prop + typeid(e).name(), e.what());
       return;
